@@ -137,9 +137,20 @@ def w_hocur(ctx, rng, idx):
             ctx.check('tedmd.amuset_hocur', 'batch_equals_single_calls', good, ['pair=%s' % ('first' if bad == 0 else 'later')] if not good else [], {'first_differing_pair': bad, 'pairs': npairs}, prop=P)
 
 
+def w_failpoint(ctx, rng, idx):
+    """the same workload with the default SVD driver failing (LinAlgError injected at the LAPACK boundary before the input is touched):
+    utils.truncated_svd must take its gesvd fallback and every clause must still hold"""
+    probe.S.failpoint_svd = True
+    try:
+        w_hosvd(ctx, rng, idx + 10 ** 6)
+    finally:
+        probe.S.failpoint_svd = False
+
+
 WORKLOADS = [
     Workload('hosvd', w_hosvd, 240, 5000),
     Workload('hocur', w_hocur, 120, 2500),
+    Workload('failpoint', w_failpoint, 30, 500),
 ]
 REQUIRED = ['C18|tedmd.amuset_hosvd:eigenvalues_equal_matrix_edmd', 'C18|tedmd.amuset_hosvd:eigentensors_satisfy_eigen_equation', 'C18|tedmd.amuset_hosvd:ordered_by_distance_to_one',
             'C18|tedmd.amuset_hosvd:batch_equals_single_calls', 'C18|tedmd.amuset_hosvd:batch_results_are_distinct_objects', 'C18|tedmd.amuset_hocur:eigenvalues_equal_matrix_edmd',
